@@ -134,6 +134,7 @@ type FuncTr struct {
 	asserted   map[string]bool
 	nonNil     map[string]bool
 	astLoops   []ast.Node
+	ordOfAst   []int // contract ordinal of each source loop
 	rfLoops    []*LoopInfo
 	recvTy     types.Type
 	elemsEager map[string]bool
@@ -218,6 +219,23 @@ func (ft *FuncTr) assert(at *Term, goal *Term, kind, detail, clause string, pos 
 		return
 	}
 	name := ft.oblName(kind, detail)
+	if ft.abstract && kind == "call.requires" {
+		// a precondition that mixes lock requirements with others: only the conjuncts about the lock state are claimed
+		parts := splitAnd(goal.S, 64)
+		if len(parts) == 0 {
+			parts = []string{goal.S}
+		}
+		for k, p := range parts {
+			if !strings.Contains(p, "$held") && !strings.HasPrefix(detail, "(*sync.") {
+				continue // (preconditions of the sync primitives themselves are claimed in full)
+			}
+			g := &Term{p, SBool}
+			o := &Obligation{Name: fmt.Sprintf("%s&%d", name, k+1), Func: ft.fn.String(), Kind: kind, PrefixLen: len(ft.cons), At: at, Goal: g, Pos: ft.posStr(pos), Clause: clause}
+			ft.obls = append(ft.obls, o)
+		}
+		ft.assume(at, goal)
+		return
+	}
 	if !strings.HasPrefix(kind, "safety.") && !noSplit {
 		// a conjunction is discharged conjunct by conjunct (independently, from the same context): smaller, more stable queries
 		if parts := splitAnd(goal.S, 24); len(parts) > 1 {
@@ -414,6 +432,45 @@ func (ft *FuncTr) findLoops() error {
 		}
 	}
 	ft.astLoops = astLoops
+	// contract ordinals: by default the N-th loop in source order; 'loop N binds x' ties ordinal N to the (k-th)
+	// source loop declaring x, so that inserting or removing an unrelated loop does not re-target the invariants
+	ft.ordOfAst = make([]int, len(astLoops))
+	for i := range astLoops {
+		ft.ordOfAst[i] = i + 1
+	}
+	if ft.c != nil && len(ft.c.LoopBinds) > 0 {
+		for i := range astLoops {
+			ft.ordOfAst[i] = 100 + i + 1
+		}
+		var ns []int
+		for n := range ft.c.LoopBinds {
+			ns = append(ns, n)
+		}
+		sort.Ints(ns)
+		for _, n := range ns {
+			name, k := ft.c.LoopBinds[n], 1
+			if i := strings.Index(name, "#"); i >= 0 {
+				fmt.Sscanf(name[i+1:], "%d", &k)
+				name = name[:i]
+			}
+			cnt, found := 0, -1
+			for i, a := range astLoops {
+				if loopDeclares(a, name) {
+					cnt++
+					if cnt == k {
+						found = i
+					}
+				}
+			}
+			if found < 0 && n >= 1 && n <= len(astLoops) && ft.ordOfAst[n-1] > 100 {
+				found = n - 1 // the variable was renamed: fall back to the position
+			}
+			if found < 0 {
+				return unsupported(fmt.Sprintf("the contract's loop %d is the loop over %q, which the source no longer has", n, ft.c.LoopBinds[n]))
+			}
+			ft.ordOfAst[found] = n
+		}
+	}
 	// range-over-func loops have no SSA loop in this function: reserve them
 	rfNodes := map[ast.Node]bool{}
 	for _, an := range fn.AnonFuncs {
@@ -467,7 +524,7 @@ func (ft *FuncTr) findLoops() error {
 		l.Node = best
 		for i, a := range astLoops {
 			if a == best {
-				l.Ordinal = i + 1
+				l.Ordinal = ft.ordOfAst[i]
 			}
 		}
 	}
@@ -478,6 +535,27 @@ func (ft *FuncTr) findLoops() error {
 		}
 	}
 	return nil
+}
+
+// loopDeclares: the loop statement declares (or assigns in its header) a variable of this name
+func loopDeclares(n ast.Node, name string) bool {
+	is := func(e ast.Expr) bool {
+		id, ok := e.(*ast.Ident)
+		return ok && id.Name == name
+	}
+	switch x := n.(type) {
+	case *ast.RangeStmt:
+		return (x.Key != nil && is(x.Key)) || (x.Value != nil && is(x.Value))
+	case *ast.ForStmt:
+		if as, ok := x.Init.(*ast.AssignStmt); ok {
+			for _, l := range as.Lhs {
+				if is(l) {
+					return true
+				}
+			}
+		}
+	}
+	return false
 }
 
 func (ft *FuncTr) loopByOrdinal(n int) *LoopInfo {
